@@ -36,6 +36,11 @@ func (a Any) completeIndexExprAtPos(ctx context.Context, pos hcl.Pos) []lang.Can
 		// references and functions.
 		lastTraversal := eType.Traversal[len(eType.Traversal)-1]
 		if _, ok := lastTraversal.(hcl.TraverseIndex); ok {
+			// only when the cursor is inside the brackets of that index step
+			stepRng := lastTraversal.SourceRange()
+			if pos.Byte <= stepRng.Start.Byte || pos.Byte > stepRng.End.Byte {
+				return candidates
+			}
 			expr := newEmptyExpressionAtPos(eType.Range().Filename, pos)
 			return newExpression(a.pathCtx, expr, cons).CompletionAtPos(ctx, pos)
 		}
